@@ -54,8 +54,8 @@ def sym_args_for(fn, fixed: Optional[dict] = None) -> dict:
 
 
 def lit_axioms() -> list:
-    from vc.pyvc.builtins_sym import seq_axioms
-    return LITS.axioms() + seq_axioms()
+    # axioms of list membership predicates and map look-ups are added per obligation by vc.core.relevant_axioms
+    return LITS.axioms()
 
 
 def fn_name(fn) -> str:
